@@ -35,6 +35,23 @@ def _has_guard(facts, needle: str, value_names: Set[str]) -> bool:
     return False
 
 
+def _guarded_on_every_feasible_path(cfg, node, needle: str, value_names: Set[str]) -> bool:
+    """Every feasible path from the entry to `node` passes a test that mentions `needle` (and the stored
+    value) and whose other outcome raises. Uses the light path-sensitivity of dataflow.feasible_path, so a
+    check placed under `if x is not None:` guards a store placed under a later `if v is not None:` when v is
+    only bound in the first branch."""
+    from ..dataflow import feasible_path
+
+    tests = []
+    for t in cfg.nodes:
+        if t.kind == "test" and needle in norm(t.ast) and (not value_names or any(v in norm(t.ast) for v in value_names)):
+            if raising_branch(cfg, t, True) or raising_branch(cfg, t, False):
+                tests.append(t)
+    if not tests:
+        return False
+    return feasible_path(cfg, cfg.entry, node, avoid=set(tests)) is None
+
+
 def run(idx: Index, rep: Report, tier: str) -> None:
     rep.explanation = __doc__.strip()
     rule1 = "C23.1 T2 guarded-store"
@@ -65,8 +82,8 @@ def run(idx: Index, rep: Report, tier: str) -> None:
             node = cfg.nodes_for(st)[0]
             facts = _guard_facts(cfg, node)
             names = {x.id for x in ast.walk(val) if isinstance(x, ast.Name)}
-            compat = _has_guard(facts, "is_compatible", names)
-            const = _has_guard(facts, "is_constant", names)
+            compat = _has_guard(facts, "is_compatible", names) or _guarded_on_every_feasible_path(cfg, node, "is_compatible", names)
+            const = _has_guard(facts, "is_constant", names) or _guarded_on_every_feasible_path(cfg, node, "is_constant", names)
             # a loop over the arguments that raises on non-constants does not concern the stored value
             rep.check(compat, rule1, f"{f.short}: store #{ordinal} into {fld} is guarded by a type-compatibility test", f.loc(st), construct=f"{norm(st)} [#{ordinal} in {f.short}]", detail="" if compat else f"`{norm(val)}` is stored without testing that its type is compatible with the fluent/type it is stored for (a Boolean fluent accepts the default 5)", function=f.qualname)
             rep.check(const, rule1, f"{f.short}: store #{ordinal} into {fld} is guarded by a constant-ness test", f.loc(st), construct=f"{norm(st)} [#{ordinal} in {f.short}] is_constant", detail="" if const else f"`{norm(val)}` is stored as an initial value/default without testing that it is a constant", function=f.qualname)
